@@ -14,13 +14,420 @@ Set Implicit Arguments.
 Theorem iter_fail_fast : forall t rc it,
   it_stamp it <> modc t -> iter_next t rc it = Ok (it, rc, NRuntimeError).
 Proof.
-Admitted.
+  intros t rc it H. unfold iter_next.
+  destruct (Nat.eqb_spec (it_stamp it) (modc t)) as [e|ne]; [contradiction|]. reflexivity.
+Qed.
+
+(* ------------------------------------------------------------------ *)
+(* list facts *)
+Lemma nth_error_flat_map_at : forall (A B : Type) (f : A -> list B) L j x idx,
+  nth_error L j = Some x -> idx < length (f x) ->
+  nth_error (flat_map f L) (length (flat_map f (firstn j L)) + idx) = nth_error (f x) idx.
+Proof.
+  intros A B f. induction L as [|a L IH]; intros j x idx E Hi.
+  - destruct j; discriminate.
+  - destruct j as [|j]; cbn [nth_error] in E.
+    + inversion E; subst. cbn [firstn flat_map length Nat.add]. rewrite nth_error_app1; auto.
+    + cbn [firstn flat_map]. rewrite app_length, <- Nat.add_assoc.
+      rewrite nth_error_app2 by lia.
+      replace (length (f a) + (length (flat_map f (firstn j L)) + idx) - length (f a))
+        with (length (flat_map f (firstn j L)) + idx) by lia.
+      eapply IH; eauto.
+Qed.
+
+Lemma nth_error_combine : forall (A B : Type) (l1 : list A) (l2 : list B) i a b,
+  nth_error l1 i = Some a -> nth_error l2 i = Some b -> nth_error (combine l1 l2) i = Some (a, b).
+Proof.
+  induction l1 as [|x l1 IH]; intros l2 i a b E1 E2; [destruct i; discriminate|].
+  destruct l2 as [|y l2]; [destruct i; discriminate|].
+  destruct i as [|i]; cbn [nth_error combine] in *.
+  - congruence.
+  - eapply IH; eauto.
+Qed.
+
+Lemma NoDup_app_disjoint : forall (A : Type) (l1 l2 : list A) x,
+  NoDup (l1 ++ l2) -> In x l1 -> In x l2 -> False.
+Proof.
+  induction l1 as [|a l1 IH]; intros l2 x ND H1 H2; [destruct H1|].
+  cbn [app] in ND. apply NoDup_cons_iff in ND. destruct ND as [Hn ND].
+  destruct H1 as [->|H1].
+  - apply Hn. apply in_app_iff. right. auto.
+  - eapply IH; eauto.
+Qed.
+
+Lemma NoDup_app_l : forall (A : Type) (l1 l2 : list A), NoDup (l1 ++ l2) -> NoDup l1.
+Proof.
+  induction l1 as [|a l1 IH]; intros l2 ND; [constructor|].
+  cbn [app] in ND. apply NoDup_cons_iff in ND. destruct ND as [Hn ND].
+  constructor; [|eapply IH; eauto]. intros Hin. apply Hn. apply in_app_iff. left. auto.
+Qed.
+
+Lemma NoDup_app_r : forall (A : Type) (l1 l2 : list A), NoDup (l1 ++ l2) -> NoDup l2.
+Proof.
+  induction l1 as [|a l1 IH]; intros l2 ND; [exact ND|].
+  cbn [app] in ND. apply NoDup_cons_iff in ND. destruct ND as [Hn ND]. auto.
+Qed.
+
+Lemma NoDup_flat_map_in : forall (A B : Type) (f : A -> list B) l x,
+  NoDup (flat_map f l) -> In x l -> NoDup (f x).
+Proof.
+  induction l as [|a l IH]; intros x ND Hin; [destruct Hin|].
+  cbn [flat_map] in ND. destruct Hin as [->|Hin].
+  - eapply NoDup_app_l; eauto.
+  - apply IH; auto. eapply NoDup_app_r; eauto.
+Qed.
+
+Lemma entries_before_S : forall L j lj, nth_error L j = Some lj ->
+  entries_before L (S j) = entries_before L j + length (contents lj).
+Proof.
+  unfold entries_before. induction L as [|a L IH]; intros j lj E.
+  - destruct j; discriminate.
+  - destruct j as [|j]; cbn [nth_error] in E.
+    + inversion E; subst. cbn [firstn flat_map length]. rewrite app_nil_r. lia.
+    + change (firstn (S (S j)) (a :: L)) with (a :: firstn (S j) L).
+      change (firstn (S j) (a :: L)) with (a :: firstn j L).
+      cbn [flat_map]. rewrite !app_length, (IH _ _ E). lia.
+Qed.
+
+Lemma entries_before_ge : forall L j, length L <= j ->
+  entries_before L j = length (flat_map (@contents key) L).
+Proof. intros L j H. unfold entries_before. rewrite firstn_all2; auto. Qed.
+
+Lemma entries_before_0 : forall L, entries_before L 0 = 0.
+Proof. reflexivity. Qed.
+
+(* ------------------------------------------------------------------ *)
+(* structure of the list-level tree *)
+Lemma ptree_ind' : forall P : ptree -> Prop,
+  (forall id c ks vs nx, P (PLeaf id c ks vs nx)) ->
+  (forall id c ks cs, (forall ch, In ch cs -> P ch) -> P (PBranch id c ks cs)) ->
+  forall t, P t.
+Proof.
+  intros P Hl Hb. fix IH 1. intros [id c ks vs nx | id c ks cs]; [apply Hl|].
+  apply Hb. induction cs as [|c0 cs IHcs]; intros ch Hin.
+  - destruct Hin.
+  - destruct Hin as [<-|Hin]; [apply IH|apply IHcs; auto].
+Qed.
+
+Lemma contents_pleaves : forall t : ptree, contents t = flat_map (@contents key) (pleaves t).
+Proof.
+  induction t as [id c ks vs nx | id c ks cs IH] using ptree_ind'.
+  - cbn [pleaves flat_map contents]. rewrite app_nil_r. reflexivity.
+  - cbn [pleaves contents]. induction cs as [|c0 cs IHcs]; [reflexivity|].
+    cbn [flat_map]. rewrite flat_map_app. f_equal.
+    + apply IH. left. auto.
+    + apply IHcs. intros ch Hin. apply IH. right. auto.
+Qed.
+
+Lemma leaf_links_pleaves : forall t : ptree,
+  leaf_links t = map (fun l => (pid l, pnext l)) (pleaves t).
+Proof.
+  induction t as [id c ks vs nx | id c ks cs IH] using ptree_ind'.
+  - reflexivity.
+  - cbn [pleaves leaf_links]. induction cs as [|c0 cs IHcs]; [reflexivity|].
+    cbn [flat_map]. rewrite map_app. f_equal.
+    + apply IH. left. auto.
+    + apply IHcs. intros ch Hin. apply IH. right. auto.
+Qed.
+
+Lemma pleaves_In_ids : forall (t pl : ptree), In pl (pleaves t) -> In (pid pl) (all_ids t).
+Proof.
+  induction t as [id c ks vs nx | id c ks cs IH] using ptree_ind'; intros pl Hin.
+  - cbn [pleaves] in Hin. destruct Hin as [<-|[]]. left. reflexivity.
+  - cbn [pleaves] in Hin. cbn [all_ids]. right.
+    apply in_flat_map in Hin. destruct Hin as (ch & Hch & Hpl).
+    apply in_flat_map. exists ch. split; auto.
+Qed.
+
+Lemma length_pleaves_le : forall t : ptree, length (pleaves t) <= node_count t.
+Proof.
+  induction t as [id c ks vs nx | id c ks cs IH] using ptree_ind'.
+  - cbn. lia.
+  - cbn [pleaves node_count].
+    assert (length (flat_map pleaves cs) <= list_sum (map node_count cs)); [|lia].
+    induction cs as [|c0 cs IHcs]; [cbn; lia|].
+    cbn [flat_map map list_sum fold_right]. rewrite app_length.
+    assert (length (pleaves c0) <= node_count c0) by (apply IH; left; auto).
+    assert (length (flat_map pleaves cs) <= list_sum (map node_count cs)).
+    { apply IHcs. intros ch Hin. apply IH. right. auto. }
+    unfold list_sum in *. lia.
+Qed.
+
+Lemma cshape_pleaves : forall cap h (t : ptree), cshape cap h t ->
+  forall pl, In pl (pleaves t) ->
+  exists id ks vs nx, pl = PLeaf id cap ks vs nx /\ length vs = length ks.
+Proof.
+  induction 1 as [id ks vs nx L1 L2 | h id ks cs L1 L2 Hc IH]; intros pl Hin.
+  - cbn [pleaves] in Hin. destruct Hin as [<-|[]]. do 4 eexists. split; [reflexivity|auto].
+  - cbn [pleaves] in Hin. apply in_flat_map in Hin. destruct Hin as (ch & Hch & Hpl). eauto.
+Qed.
+
+(* ------------------------------------------------------------------ *)
+(* reading a represented node *)
+Lemma rl_key : forall cap n id ks vs nx i k,
+  repr_leaf cap n id ks vs nx -> nth_error ks i = Some k -> nth_error (data n) i = Some (SObj k).
+Proof.
+  intros cap n id ks vs nx i k R E. destruct R as (_ & _ & _ & _ & _ & _ & _ & _ & Hk & _).
+  change i with (0 + i). apply (holds_nth (l := map SObj ks)); auto. rewrite nth_error_map, E. reflexivity.
+Qed.
+
+Lemma rl_val : forall cap n id ks vs nx i v,
+  repr_leaf cap n id ks vs nx -> nth_error vs i = Some v -> nth_error (data n) (ncap n + i) = Some (SObj v).
+Proof.
+  intros cap n id ks vs nx i v R E. destruct R as (_ & _ & Hc & _ & _ & _ & _ & _ & _ & Hv).
+  rewrite Hc. apply (holds_nth (l := map SObj vs)); auto. rewrite nth_error_map, E. reflexivity.
+Qed.
+
+Lemma rb_child : forall cap n id ks cs i c,
+  repr_branch cap n id ks cs -> nth_error cs i = Some c -> get_child n i = Ok (SKid c).
+Proof.
+  intros cap n id ks cs i c (H1 & H2 & H3 & H4 & H5 & H6 & H7 & H8 & H9) E.
+  apply get_child_ok. rewrite H3. apply (holds_nth (l := map SKid cs)); auto.
+  rewrite nth_error_map, E. reflexivity.
+Qed.
+
+Lemma rb_live_kids : forall cap n id ks cs,
+  repr_branch cap n id ks cs ->
+  firstn (S (nk n)) (skipn (ncap n) (data n)) = map SKid cs.
+Proof.
+  intros cap n id ks cs (H1 & H2 & H3 & H4 & H5 & H6 & H7 & H8 & H9).
+  pose proof (@holds_firstn_skipn (data n) cap (map SKid cs) H9) as E.
+  rewrite map_length in E. rewrite H3, H4, <- H6. apply E. lia.
+Qed.
+
+Lemma nid_in_all_ids : forall n, In (nid n) (all_ids (abs n)).
+Proof. intros [i ty c k d x]. cbn [abs nid]. destruct ty; cbn [all_ids]; left; reflexivity. Qed.
+
+(* ------------------------------------------------------------------ *)
+(* pointer dereference *)
+Definition find_go (f : nat) (id : N) : list cslot -> option cnode :=
+  fix go (l : list cslot) : option cnode :=
+    match l with
+    | [] => None
+    | SKid c :: l' => match find_node f c id with Some x => Some x | None => go l' end
+    | _ :: l' => go l'
+    end.
+
+Lemma find_node_S : forall f n id, find_node (S f) n id =
+  if N.eqb (nid n) id then Some n else
+  match nty n with
+  | NLeaf => None
+  | NBranch => find_go f id (firstn (S (nk n)) (skipn (ncap n) (data n)))
+  end.
+Proof. reflexivity. Qed.
+
+Lemma find_go_kids : forall f id c cs,
+  find_go f id (map SKid (c :: cs)) =
+  match find_node f c id with Some x => Some x | None => find_go f id (map SKid cs) end.
+Proof. reflexivity. Qed.
+
+Lemma find_node_self : forall f n, find_node f n (nid n) = Some n.
+Proof.
+  intros f n. destruct f; [cbn [find_node]|rewrite find_node_S]; rewrite N.eqb_refl; reflexivity.
+Qed.
+
+Lemma find_node_sound : forall f cap n id x,
+  wf cap n -> find_node f n id = Some x -> In id (all_ids (abs n)).
+Proof.
+  induction f as [|f IH]; intros cap n id x W E.
+  - cbn [find_node] in E. destruct (N.eqb_spec (nid n) id) as [<-|ne]; [|discriminate].
+    apply nid_in_all_ids.
+  - rewrite find_node_S in E. destruct (N.eqb_spec (nid n) id) as [<-|ne]; [apply nid_in_all_ids|].
+    inversion W as [n0 id0 ks vs nx R | n0 id0 ks cs R Hc]; subst n0.
+    + rewrite (repr_leaf_nty R) in E. discriminate.
+    + rewrite (repr_branch_nty R), (rb_live_kids R) in E. rewrite (repr_branch_abs R).
+      cbn [all_ids]. right. clear R.
+      induction cs as [|c0 cs IHcs]; [discriminate|].
+      rewrite find_go_kids in E. cbn [map flat_map]. apply in_app_iff.
+      destruct (find_node f c0 id) as [y|] eqn:E0.
+      * left. eapply IH; eauto. apply Hc. left. auto.
+      * right. apply IHcs; auto. intros c Hin. apply Hc. right. auto.
+Qed.
+
+Lemma find_go_complete : forall f cap id x cs c,
+  (forall c, In c cs -> wf cap c) -> NoDup (flat_map all_ids (map abs cs)) ->
+  In c cs -> find_node f c id = Some x -> find_go f id (map SKid cs) = Some x.
+Proof.
+  induction cs as [|c0 cs IH]; intros c W ND Hin E; [destruct Hin|].
+  rewrite find_go_kids. cbn [map flat_map] in ND.
+  destruct Hin as [->|Hin]; [rewrite E; reflexivity|].
+  destruct (find_node f c0 id) as [y|] eqn:E0.
+  - exfalso. apply (@NoDup_app_disjoint _ _ _ id ND).
+    + eapply find_node_sound; eauto. apply W. left. auto.
+    + apply in_flat_map. exists (abs c). split; [apply in_map; auto|].
+      eapply find_node_sound; eauto. apply W. right. auto.
+  - eapply IH; eauto.
+    + intros c1 H1. apply W. right. auto.
+    + eapply NoDup_app_r; eauto.
+Qed.
+
+Lemma find_node_complete : forall f cap n h pl,
+  wf cap n -> cshape cap h (abs n) -> NoDup (all_ids (abs n)) -> h <= f ->
+  In pl (pleaves (abs n)) ->
+  exists l, find_node f n (pid pl) = Some l /\ abs l = pl /\ wf cap l.
+Proof.
+  induction f as [|f IH]; intros cap n h pl W Sh ND Hf Hin.
+  - inversion W as [n0 id ks vs nx R | n0 id ks cs R Hc]; subst n0.
+    + pose proof (repr_leaf_abs R) as Ea. rewrite Ea in Hin. cbn [pleaves] in Hin.
+      destruct Hin as [<-|[]]. exists n. cbn [pid]. split; [|auto].
+      replace id with (nid n) by apply R. apply find_node_self.
+    + rewrite (repr_branch_abs R) in Sh. apply cshape_branch_inv in Sh.
+      destruct Sh as (h' & -> & _). lia.
+  - inversion W as [n0 id ks vs nx R | n0 id ks cs R Hc]; subst n0.
+    + pose proof (repr_leaf_abs R) as Ea. rewrite Ea in Hin. cbn [pleaves] in Hin.
+      destruct Hin as [<-|[]]. exists n. cbn [pid]. split; [|auto].
+      replace id with (nid n) by apply R. apply find_node_self.
+    + rewrite (repr_branch_abs R) in Sh, ND, Hin.
+      destruct (cshape_branch_inv Sh) as (h' & -> & _ & Lc & _ & Hsh).
+      cbn [pleaves] in Hin. apply in_flat_map in Hin. destruct Hin as (pc & Hpc & Hpl).
+      apply in_map_iff in Hpc. destruct Hpc as (c & <- & Hcin).
+      assert (Hidin : In (pid pl) (all_ids (abs c))) by (apply pleaves_In_ids; auto).
+      cbn [all_ids] in ND. apply NoDup_cons_iff in ND. destruct ND as [Hnot ND'].
+      rewrite find_node_S. destruct (N.eqb_spec (nid n) (pid pl)) as [e|ne].
+      { exfalso. apply Hnot. replace id with (nid n) by apply R. rewrite e.
+        apply in_flat_map. exists (abs c). split; [apply in_map; auto|auto]. }
+      rewrite (repr_branch_nty R), (rb_live_kids R).
+      destruct (IH cap c h' pl) as (l & El & Eabs & Wl); auto.
+      * apply Hsh. apply in_map. auto.
+      * apply (NoDup_flat_map_in all_ids (map abs cs) (abs c) ND'). apply in_map. auto.
+      * lia.
+      * exists l. split; auto. eapply find_go_complete; eauto.
+Qed.
+
+(* ------------------------------------------------------------------ *)
+(* the leaf chain *)
+Definition addr (L : list ptree) (i : nat) : N :=
+  match nth_error L i with Some l => pid l | None => 0%N end.
+
+Lemma links_ok_next : forall (L : list ptree) i pl,
+  links_ok (map (fun l => (pid l, pnext l)) L) 0%N -> nth_error L i = Some pl ->
+  pnext pl = addr L (S i).
+Proof.
+  induction L as [|a L IH]; intros i pl H E; [destruct i; discriminate|].
+  cbn [map links_ok] in H. destruct H as [H1 H2].
+  destruct i as [|i]; cbn [nth_error] in E.
+  - inversion E; subst. unfold addr. cbn [nth_error]. rewrite H1. destruct L as [|b L]; reflexivity.
+  - exact (IH i pl H2 E).
+Qed.
+
+Lemma CInv_fuel' : forall t h, CInv t -> cshape (tcap t) h (abs (root t)) -> h < fuel_of t.
+Proof.
+  intros t h I Sh. pose proof (cshape_height_lt_count Sh). pose proof (ci_count I).
+  unfold fuel_of. lia.
+Qed.
+
+(* what the iterator code needs to know about the leaves *)
+Definition leaf_ok (t : ctree) (L : list ptree) : Prop :=
+  forall i pl, nth_error L i = Some pl ->
+    pid pl <> 0%N /\ length (pvals pl) = length (pkeys pl) /\
+    contents pl = combine (pkeys pl) (pvals pl) /\
+    exists l, deref t (pid pl) = Ok l /\
+      repr_leaf (tcap t) l (pid pl) (pkeys pl) (pvals pl) (addr L (S i)).
+
+Lemma CInv_leaf_ok : forall t, CInv t -> leaf_ok t (pleaves (abs (root t))).
+Proof.
+  intros t I i pl E. destruct (ci_shape I) as (h & Sh).
+  assert (Hin : In pl (pleaves (abs (root t)))) by (eapply nth_error_In; eauto).
+  pose proof (ci_chain I) as Ch. rewrite leaf_links_pleaves in Ch.
+  pose proof (@links_ok_next _ _ _ Ch E) as Enx.
+  destruct (@find_node_complete (fuel_of t) (tcap t) (root t) h pl (ci_wf I) Sh (ci_nodup I))
+    as (l & El & Ea & Wl); auto.
+  { pose proof (CInv_fuel' I Sh). lia. }
+  pose proof (ci_ids I _ (@pleaves_In_ids _ _ Hin)) as Hid.
+  destruct (@cshape_pleaves _ _ _ Sh _ Hin) as (id & ks & vs & nx & -> & Lv).
+  cbn [pid pkeys pvals pnext contents] in *.
+  split; [lia|]. split; [auto|]. split; [reflexivity|].
+  exists l. unfold deref. rewrite El. split; auto.
+  destruct (wf_abs_leaf Wl Ea) as (_ & R). rewrite <- Enx. exact R.
+Qed.
+
+(* ------------------------------------------------------------------ *)
+(* skip_empty *)
+Lemma skip_empty_ok : forall t L, leaf_ok t L -> forall fuel i, length L - i <= fuel ->
+  exists j, i <= j /\ entries_before L j = entries_before L i /\
+    (j <> i -> exists li, nth_error L i = Some li /\ pkeys li = []) /\
+    ((nth_error L j = None /\ skip_empty fuel t (addr L i) = Ok 0%N) \/
+     (exists lj, nth_error L j = Some lj /\ pkeys lj <> [] /\
+                 skip_empty fuel t (addr L i) = Ok (pid lj))).
+Proof.
+  intros t L H. induction fuel as [|f IH]; intros i Hf.
+  - assert (E : nth_error L i = None) by (apply nth_error_None; lia).
+    exists i. unfold addr. rewrite E. split; [lia|]. split; [auto|]. split; [congruence|].
+    left. auto.
+  - destruct (nth_error L i) as [li|] eqn:E.
+    + destruct (H i li E) as (Hnz & Lv & Ct & l & Ed & R).
+      assert (Ea : addr L i = pid li) by (unfold addr; rewrite E; reflexivity).
+      assert (Es : skip_empty (S f) t (pid li) =
+                   if Nat.eqb (nk l) 0 then skip_empty f t (next l) else Ok (pid li)).
+      { cbn [skip_empty]. destruct (N.eqb_spec (pid li) 0); [contradiction|]. rewrite Ed. reflexivity. }
+      destruct R as (_ & _ & _ & Hnk & Hnx & _). rewrite Hnk, Hnx in Es.
+      destruct (pkeys li) as [|k0 ks0] eqn:Ek.
+      * cbn [length Nat.eqb] in Es.
+        destruct (IH (S i)) as (j & Hij & Eb & _ & Hres); [lia|].
+        exists j. split; [lia|]. split.
+        { rewrite Eb. rewrite (@entries_before_S _ _ _ E). rewrite Ct. cbn [combine length]. lia. }
+        split. { intros _. exists li. auto. }
+        rewrite Ea, Es. exact Hres.
+      * exists i. rewrite Ea, Es. cbn [length Nat.eqb]. split; [lia|]. split; [auto|].
+        split; [congruence|]. right. exists li. split; auto. rewrite Ek. split; [discriminate|reflexivity].
+    + exists i. unfold addr. rewrite E. split; [lia|]. split; [auto|]. split; [congruence|].
+      left. auto.
+Qed.
+
+(* reading entry idx of leaf j *)
+Lemma read_entry : forall t L j lj idx,
+  leaf_ok t L -> nth_error L j = Some lj -> idx < length (pkeys lj) ->
+  exists l k v, deref t (pid lj) = Ok l /\ get_key l idx = Ok (SObj k) /\
+    get_value l idx = Ok (SObj v) /\
+    nth_error (flat_map (@contents key) L) (entries_before L j + idx) = Some (k, v).
+Proof.
+  intros t L j lj idx H E Hi. destruct (H j lj E) as (Hnz & Lv & Ct & l & Ed & R).
+  destruct (nth_error (pkeys lj) idx) as [k|] eqn:Ek; [|apply nth_error_None in Ek; lia].
+  destruct (nth_error (pvals lj) idx) as [v|] eqn:Ev; [|apply nth_error_None in Ev; lia].
+  exists l, k, v. split; auto.
+  split; [apply get_key_ok; eapply rl_key; eauto|].
+  split; [apply get_value_ok; eapply rl_val; eauto|].
+  unfold entries_before. rewrite (@nth_error_flat_map_at _ _ (@contents key) L j lj idx E).
+  - rewrite Ct. apply nth_error_combine; auto.
+  - rewrite Ct, combine_length. lia.
+Qed.
+
+(* ------------------------------------------------------------------ *)
+(* first_leaf *)
+Lemma first_leaf_ok : forall f cap n h, wf cap n -> cshape cap h (abs n) -> h < f ->
+  exists pl, nth_error (pleaves (abs n)) 0 = Some pl /\ first_leaf f n = Ok (pid pl).
+Proof.
+  induction f as [|f IH]; intros cap n h W Sh Hf; [lia|].
+  inversion W as [n0 id ks vs nx R | n0 id ks cs R Hc]; subst n0.
+  - rewrite (repr_leaf_abs R). cbn [pleaves nth_error first_leaf]. rewrite (repr_leaf_nty R).
+    eexists. split; [reflexivity|]. cbn [pid]. f_equal. apply R.
+  - rewrite (repr_branch_abs R) in *.
+    destruct (cshape_branch_inv Sh) as (h' & -> & _ & Lc & _ & Hsh).
+    rewrite map_length in Lc.
+    destruct cs as [|c0 cs]; [cbn in Lc; lia|].
+    cbn [first_leaf]. rewrite (repr_branch_nty R).
+    rewrite (@rb_child cap n id ks (c0 :: cs) 0 c0 R eq_refl). cbn [bind].
+    destruct (IH cap c0 h') as (pl & Hh & Hfl).
+    + apply Hc. left. auto.
+    + apply Hsh. left. reflexivity.
+    + lia.
+    + exists pl. split; auto. cbn [map pleaves flat_map].
+      destruct (pleaves (abs c0)) as [|p0 ps]; [discriminate|]. exact Hh.
+Qed.
 
 Theorem iter_new_ok : forall t inc, CInv t ->
   exists it, iter_new t inc = Ok it /\ it_inc it = inc /\ it_stamp it = modc t /\
     it_at (abs (root t)) (it_cur it) (it_idx it) 0.
 Proof.
-Admitted.
+  intros t inc I. destruct (ci_shape I) as (h & Sh).
+  destruct (@first_leaf_ok (fuel_of t) (tcap t) (root t) h (ci_wf I) Sh (CInv_fuel' I Sh))
+    as (pl & Hh & Efl).
+  unfold iter_new. rewrite Efl. cbn [bind]. eexists. split; [reflexivity|].
+  cbn [it_inc it_stamp it_cur it_idx]. split; [reflexivity|]. split; [reflexivity|].
+  right. exists 0, pl. split; [exact Hh|]. split; [reflexivity|].
+  destruct (CInv_leaf_ok I _ Hh) as (Hnz & _). split; [exact Hnz|].
+  split; [lia|]. reflexivity.
+Qed.
 
 Theorem iter_next_ok : forall t rc it p, CInv t ->
   it_stamp it = modc t -> it_at (abs (root t)) (it_cur it) (it_idx it) p ->
@@ -31,4 +438,112 @@ Theorem iter_next_ok : forall t rc it p, CInv t ->
     it_at (abs (root t)) (it_cur it') (it_idx it')
           (if Nat.ltb p (length (tree_map t)) then S p else p).
 Proof.
-Admitted.
+  intros t rc [cur idx inc st] p I Hst Hat. cbn [it_stamp it_cur it_idx it_inc] in *.
+  pose proof (CInv_leaf_ok I) as LO.
+  unfold tree_map. rewrite (contents_pleaves (abs (root t))).
+  unfold it_at in *. rewrite (contents_pleaves (abs (root t))) in *.
+  set (L := pleaves (abs (root t))) in *.
+  set (M := flat_map (@contents key) L) in *.
+  unfold iter_next. cbn [it_stamp it_cur it_idx it_inc]. rewrite Hst, Nat.eqb_refl. cbn [negb].
+  (* the three ways to stop *)
+  assert (STOP : forall idx', p = length M ->
+    exists it', Ok (mkIter 0 idx' inc (modc t), rc, NStop) =
+        Ok (it', expected_rc rc (expected_out M inc p), expected_out M inc p) /\
+      it_inc it' = inc /\ it_stamp it' = modc t /\
+      ((it_cur it' = 0%N /\ (if Nat.ltb p (length M) then S p else p) = length M) \/
+       (exists i l, nth_error L i = Some l /\ pid l = it_cur it' /\ it_cur it' <> 0%N /\
+          it_idx it' <= length (pkeys l) /\
+          (if Nat.ltb p (length M) then S p else p) = entries_before L i + it_idx it'))).
+  { intros idx' Hp. assert (En : nth_error M p = None) by (apply nth_error_None; lia).
+    unfold expected_out. rewrite En. cbn [expected_rc].
+    eexists. split; [reflexivity|]. cbn [it_inc it_stamp it_cur it_idx].
+    split; [reflexivity|]. split; [reflexivity|]. left. split; [reflexivity|].
+    rewrite Hp, Nat.ltb_irrefl. reflexivity. }
+  (* reading entry idx' of leaf j *)
+  assert (READ : forall j lj idx', nth_error L j = Some lj -> idx' < length (pkeys lj) ->
+    p = entries_before L j + idx' ->
+    exists it',
+      (do l <- deref t (pid lj);
+       do ks <- get_key l idx';
+       if inc then
+         do vs <- get_value l idx';
+         do k <- as_obj 10 ks;
+         do v <- as_obj 11 vs;
+         Ok (mkIter (pid lj) (S idx') true (modc t), incref (incref rc k) v, NItem k v)
+       else
+         do k <- as_obj 10 ks;
+         Ok (mkIter (pid lj) (S idx') false (modc t), incref rc k, NKey k)) =
+        Ok (it', expected_rc rc (expected_out M inc p), expected_out M inc p) /\
+      it_inc it' = inc /\ it_stamp it' = modc t /\
+      ((it_cur it' = 0%N /\ (if Nat.ltb p (length M) then S p else p) = length M) \/
+       (exists i l, nth_error L i = Some l /\ pid l = it_cur it' /\ it_cur it' <> 0%N /\
+          it_idx it' <= length (pkeys l) /\
+          (if Nat.ltb p (length M) then S p else p) = entries_before L i + it_idx it'))).
+  { intros j lj idx' Ej Hi Hp.
+    destruct (@read_entry t L j lj idx' LO Ej Hi) as (l & k & v & Ed & Ek & Ev & En).
+    fold M in En. rewrite <- Hp in En.
+    assert (Hlt : p < length M) by (apply nth_error_Some; congruence).
+    apply Nat.ltb_lt in Hlt. rewrite Hlt.
+    destruct (LO j lj Ej) as (Hnz & _).
+    rewrite Ed. cbn [bind]. rewrite Ek. cbn [bind]. unfold expected_out. rewrite En.
+    destruct inc.
+    - rewrite Ev. cbn [bind as_obj expected_rc]. eexists. split; [reflexivity|].
+      cbn [it_inc it_stamp it_cur it_idx]. split; [reflexivity|]. split; [reflexivity|].
+      right. exists j, lj. repeat split; auto; lia.
+    - cbn [bind as_obj expected_rc]. eexists. split; [reflexivity|].
+      cbn [it_inc it_stamp it_cur it_idx]. split; [reflexivity|]. split; [reflexivity|].
+      right. exists j, lj. repeat split; auto; lia. }
+  assert (Hfuel : forall i, length L - i <= fuel_of t).
+  { intros i. pose proof (length_pleaves_le (abs (root t))). pose proof (ci_count I).
+    fold L in H. unfold fuel_of. lia. }
+  destruct Hat as [[Hc Hp] | (i & li & Ei & Hid & Hnz & Hidx & Hp)].
+  - (* exhausted iterator *)
+    subst cur. rewrite N.eqb_refl. apply STOP. exact Hp.
+  - destruct (N.eqb_spec cur 0) as [e|_]; [contradiction|].
+    assert (Ea : cur = addr L i) by (unfold addr; rewrite Ei; auto).
+    destruct (@skip_empty_ok t L LO (fuel_of t) i (Hfuel i)) as (j & Hij & Eb & Hemp & Hres).
+    rewrite <- Ea in Hres.
+    assert (Hp1 : exists idx1, p = entries_before L j + idx1 /\
+                   (j = i /\ idx1 = idx \/ j <> i /\ idx1 = 0 /\ idx = 0)).
+    { destruct (Nat.eq_dec j i) as [->|ne].
+      - exists idx. split; auto.
+      - destruct (Hemp ne) as (li' & Ei' & Ek). rewrite Ei in Ei'. inversion Ei'; subst li'.
+        rewrite Ek in Hidx. cbn [length] in Hidx. exists 0. split; [lia|]. right. lia. }
+    destruct Hp1 as (idx1 & Hp1 & Hcase).
+    destruct Hres as [[Ej Es] | (lj & Ej & Hne & Es)].
+    + (* only empty leaves left *)
+      rewrite Es. cbn [bind]. rewrite N.eqb_refl. apply STOP.
+      apply nth_error_None in Ej. rewrite (@entries_before_ge _ _ Ej) in Hp1.
+      fold M in Hp1.
+      destruct Hcase as [[-> ->] | (_ & -> & _)].
+      * apply nth_error_None in Ej. congruence.
+      * lia.
+    + rewrite Es. cbn [bind].
+      destruct (LO j lj Ej) as (Hnzj & Lvj & Ctj & l1 & Ed1 & R1).
+      destruct (N.eqb_spec (pid lj) 0) as [e|_]; [contradiction|].
+      rewrite Ed1. cbn [bind].
+      pose proof R1 as (_ & _ & _ & Hnk & Hnx & _). rewrite Hnk.
+      destruct (Nat.leb_spec (length (pkeys lj)) idx) as [Hge|Hlt].
+      * (* the current leaf is used up: move on *)
+        assert (Hj : j = i /\ idx1 = idx).
+        { destruct Hcase as [?|(_ & _ & ->)]; auto. exfalso. apply Hne.
+          destruct (pkeys lj); [reflexivity|cbn [length] in Hge; lia]. }
+        destruct Hj as [-> ->]. rewrite Ei in Ej. inversion Ej; subst lj.
+        assert (Hidx' : idx = length (pkeys li)) by lia.
+        destruct (@skip_empty_ok t L LO (fuel_of t) (S i) (Hfuel (S i)))
+          as (j2 & Hij2 & Eb2 & _ & Hres2).
+        rewrite Hnx.
+        assert (Hp2 : p = entries_before L j2).
+        { rewrite Eb2, (@entries_before_S _ _ _ Ei), Ctj, combine_length. lia. }
+        destruct Hres2 as [[Ej2 Es2] | (lj2 & Ej2 & Hne2 & Es2)].
+        -- rewrite Es2. cbn [bind]. rewrite N.eqb_refl. apply STOP.
+           apply nth_error_None in Ej2. rewrite (@entries_before_ge _ _ Ej2) in Hp2. exact Hp2.
+        -- rewrite Es2. cbn [bind].
+           destruct (LO j2 lj2 Ej2) as (Hnz2 & _).
+           destruct (N.eqb_spec (pid lj2) 0) as [e|_]; [contradiction|].
+           apply READ with (j := j2); auto; [|lia].
+           destruct (pkeys lj2); [congruence|cbn [length]; lia].
+      * cbn [bind]. destruct (N.eqb_spec (pid lj) 0) as [e|_]; [contradiction|].
+        assert (idx1 = idx) by (destruct Hcase as [[_ ?]|(_ & -> & ->)]; auto). subst idx1.
+        apply READ with (j := j); auto.
+Qed.
